@@ -7,45 +7,108 @@ import Kapture.Lemmas.C19
 namespace Kapture.C19
 
 /-- the generated tables satisfy the side conditions (a renamed file, a type listed twice, ... breaks this) -/
-theorem tables_wellformed : WF genTables := by sorry
+theorem tables_wellformed : WF genTables := ⟨by decide, by decide, by decide⟩
 
 /-- nothing is deleted unless forced or answered y/Y -/
 theorem no_consent_no_change (T : Tables) (a : Args) (kind : String → Kind) (h : consent a = false) :
-    ∀ plan, outcome T a kind ≠ Outcome.deleted plan := by sorry
+    ∀ plan, outcome T a kind ≠ Outcome.deleted plan := by
+  intro plan
+  unfold outcome
+  simp only [h]
+  split
+  · exact fun hh => Outcome.noConfusion hh
+  · simp
 
 /-- with consent, what is deleted is the whole plan, and it is non-empty exactly when something selected exists -/
 theorem consent_deletes_plan (T : Tables) (a : Args) (kind : String → Kind) (h : consent a = true) :
     outcome T a kind =
       if (toDelete T a kind).isEmpty then Outcome.nothing
-      else Outcome.deleted ((toDelete T a kind).map (fun p => (p, (kind p).action))) := by sorry
+      else Outcome.deleted ((toDelete T a kind).map (fun p => (p, (kind p).action))) := by
+  unfold outcome
+  simp only [h, if_true]
 
 /-- the plan is EXACTLY the existing paths selected by only/skip (with the record data kept when a kept part needs it) -/
 theorem deleted_exact (T : Tables) (hT : WF T) (a : Args) (kind : String → Kind) (p : String) :
-    p ∈ toDelete T a kind ↔ ((kind p).lexists = true ∧ Selected T a p) := by sorry
+    p ∈ toDelete T a kind ↔ ((kind p).lexists = true ∧ Selected T a p) := by
+  rw [mem_toDelete, mem_candidates, mustKeep_eq_needs hT]
+  unfold Selected
+  have hcsv : ∀ t, (t, p) ∈ T.csvFiles → (t ∉ keepCsv T a ↔ sel a t = true) := fun t h =>
+    not_mem_keepCsv hT a (List.mem_map.mpr ⟨(t, p), h, rfl⟩)
+  have hfeat : ∀ t, (t, p) ∈ T.featDirs → (t ∉ keepFeat T a ↔ sel a t = true) := fun t h =>
+    not_mem_keepFeat hT a (List.mem_map.mpr ⟨(t, p), h, rfl⟩)
+  by_cases hp : p = T.recordsDir
+  · have hnc : ¬ ∃ t, (t, p) ∈ T.csvFiles ∧ sel a t = true := by
+      rintro ⟨t, h, _⟩; exact hT.rec_not_csv (t, p) h hp
+    constructor
+    · rintro ⟨_, hl, hn⟩
+      refine ⟨hl, Or.inr (Or.inr ⟨hp, ?_⟩)⟩
+      cases hneeds : needs T a with
+      | false => rfl
+      | true => exact absurd ⟨hneeds, hp⟩ hn
+    · rintro ⟨hl, hs⟩
+      refine ⟨Or.inr (Or.inr hp), hl, ?_⟩
+      rcases hs with hs | ⟨_, _, _, hne⟩ | ⟨_, hn⟩
+      · exact absurd hs hnc
+      · exact absurd hp hne
+      · rintro ⟨h1, _⟩; rw [hn] at h1; exact Bool.noConfusion h1
+  · constructor
+    · rintro ⟨hc, hl, _⟩
+      refine ⟨hl, ?_⟩
+      rcases hc with ⟨t, h, hk⟩ | ⟨t, h, hk⟩ | h
+      · exact Or.inl ⟨t, h, (hcsv t h).mp hk⟩
+      · exact Or.inr (Or.inl ⟨t, h, (hfeat t h).mp hk, hp⟩)
+      · exact absurd h hp
+    · rintro ⟨hl, hs⟩
+      refine ⟨?_, hl, fun hh => hp hh.2⟩
+      rcases hs with ⟨t, h, hk⟩ | ⟨t, h, hk, _⟩ | ⟨h, _⟩
+      · exact Or.inl ⟨t, h, (hcsv t h).mpr hk⟩
+      · exact Or.inr (Or.inl ⟨t, h, (hfeat t h).mpr hk⟩)
+      · exact absurd h hp
 
 theorem deleted_exact_gen (a : Args) (kind : String → Kind) (p : String) :
-    p ∈ toDelete genTables a kind ↔ ((kind p).lexists = true ∧ Selected genTables a p) := by sorry
+    p ∈ toDelete genTables a kind ↔ ((kind p).lexists = true ∧ Selected genTables a p) :=
+  deleted_exact genTables tables_wellformed a kind p
 
 /-- no path is visited twice -/
-theorem plan_nodup (T : Tables) (a : Args) (kind : String → Kind) : (toDelete T a kind).Nodup := by sorry
+theorem plan_nodup (T : Tables) (a : Args) (kind : String → Kind) : (toDelete T a kind).Nodup :=
+  nodup_toDelete T a kind
 
 /-- files the user keeps alongside are never in the plan: only the format's own top-level paths are -/
 theorem foreign_untouched (T : Tables) (a : Args) (kind : String → Kind) (p : String) (h : p ∈ toDelete T a kind) :
-    p ∈ datasetPaths T := by sorry
+    p ∈ datasetPaths T :=
+  candidates_sub T a p (mem_toDelete.mp h).1
 
 /-- parts named in skip survive -/
 theorem skip_survives (T : Tables) (hT : WF T) (a : Args) (kind : String → Kind) (t p : String)
     (ho : a.only = []) (hs : t ∈ a.skip) (hp : (t, p) ∈ T.csvFiles ∨ ((t, p) ∈ T.featDirs ∧ p ≠ T.recordsDir))
     (huniq : ∀ t' , ((t', p) ∈ T.csvFiles ∨ (t', p) ∈ T.featDirs) → t' = t) :
-    p ∉ toDelete T a kind := by sorry
+    p ∉ toDelete T a kind := by
+  rw [deleted_exact T hT]
+  have hsel : sel a t = false := by simp [sel, ho, hs]
+  rintro ⟨_, h | h | h⟩
+  · obtain ⟨t', h1, h2⟩ := h
+    rw [huniq t' (Or.inl h1), hsel] at h2; exact Bool.noConfusion h2
+  · obtain ⟨t', h1, h2, _⟩ := h
+    rw [huniq t' (Or.inr h1), hsel] at h2; exact Bool.noConfusion h2
+  · rcases hp with hp | hp
+    · exact hT.rec_not_csv (t, p) hp h.1
+    · exact hp.2 h.1
 
 /-- the record data survive whenever a kept part needs them -/
 theorem records_kept_when_needed (T : Tables) (hT : WF T) (a : Args) (kind : String → Kind) (h : needs T a = true) :
-    T.recordsDir ∉ toDelete T a kind := by sorry
+    T.recordsDir ∉ toDelete T a kind := by
+  rw [deleted_exact T hT]
+  rintro ⟨_, h1 | h1 | h1⟩
+  · obtain ⟨t, h1, _⟩ := h1
+    exact hT.rec_not_csv (t, T.recordsDir) h1 rfl
+  · obtain ⟨_, _, _, hne⟩ := h1
+    exact hne rfl
+  · rw [h] at h1; exact Bool.noConfusion h1.2
 
 /-- a symbolic link standing for a dataset path is unlinked, never followed -/
 theorem link_unlinked (k : Kind) (h : k = Kind.linkFile ∨ k = Kind.linkDir ∨ k = Kind.linkDangling) :
-    k.action = Action.unlink := by sorry
+    k.action = Action.unlink := by
+  rcases h with rfl | rfl | rfl <;> rfl
 
 -- non-vacuity: a selection that keeps record data while deleting records_camera.txt, on a directory holding both
 example : needs genTables ⟨["RecordsCamera"], [], true, ""⟩ = true := by decide
